@@ -79,6 +79,15 @@ class ProbeNode(BaseNode):
         self.trace = trace
         self.const = const
 
+    startup_sleep = 0.0  # seconds the user-defined startup() takes (C05 wall-clock scenarios)
+
+    def startup(self, graph_state, timeout=None):
+        if self.startup_sleep:
+            import time
+
+            time.sleep(self.startup_sleep)
+        return True
+
     def init_params(self, rng=None, graph_state=None):
         return PParams(nid=jnp.int32(self.nid), c=jnp.int32(self.const))
 
